@@ -9,12 +9,7 @@ import (
 	"github.com/TheCacophonyProject/lepton3"
 )
 
-var zzEntries = map[string]func(){
-	"ZZ_C13_boson":  ZZ_C13_boson,
-	"ZZ_C13_lepton": ZZ_C13_lepton,
-	"ZZ_CONN":       ZZ_CONN,
-	"ZZ_C11_start":  ZZ_C11_start,
-}
+var zzEntries = map[string]func(){}
 
 type zzCam struct{ x, y, fps int }
 
@@ -87,3 +82,10 @@ func zzParserCheck(boson bool) {
 
 func ZZ_C13_boson()  { zzParserCheck(true) }
 func ZZ_C13_lepton() { zzParserCheck(false) }
+
+// replay entries of this file (registered here so that the file can be left out
+// on its own when it does not compile against the tree under check)
+func init() {
+	zzEntries["ZZ_C13_boson"] = ZZ_C13_boson
+	zzEntries["ZZ_C13_lepton"] = ZZ_C13_lepton
+}
